@@ -963,6 +963,32 @@ def corpus_string_instances(R, r):
                     R.fail("C03:size-vs-extent", f"{what} with src a String with spare room (capacity {how}): reports size {size} at {int(obj._offset)} but "
                            f"reserved {log}", ctx)
                 R.tags["corpus.string-instance"] += 1
+                # a String instance with LESS room than the slot is accepted - and the slot keeps the room it was created with: a text
+                # that fitted at creation still fits afterwards
+                if not isinstance(obj, xo.String):
+                    small = xo.String("ab", _buffer=r.choice([buf, xo.ContextCpu().new_buffer(64)]))
+                    full = "y" * ((how + 8) // 8 * 8 - 9)        # the longest text whose planned (slot-rounded) size fits the room
+                    try:
+                        if isinstance(obj, S):
+                            obj.s = small
+                            got1 = obj.s
+                            obj.s = full
+                            got2 = obj.s
+                        else:
+                            obj[0] = small
+                            got1 = obj[0]
+                            obj[0] = full
+                            got2 = obj[0]
+                        if got1 != "ab" or got2 != full:
+                            R.fail("C10:set-wrong", f"{what}: slot <- String('ab') reads {got1!r}; then <- {len(full)} characters reads {got2!r}", ctx)
+                        R.tags["corpus.string-instance.smaller-instance-assigned"] += 1
+                    except Exception as ex:
+                        for key in ("C11:space-fixed-at-creation-shrank", "C10:fitting-assignment-refused"):
+                            R.fail(key, f"{what}: after assigning a String instance with less room ('ab', 16 bytes) to the string slot created with "
+                                   f"capacity {how}, a text of {len(full)} characters - which fitted at creation - is refused: {type(ex).__name__}: "
+                                   f"{str(ex)[:100]}", ctx)
+                    if guard.to_str() != "neighbour":
+                        R.fail("C03:write-outside-extent", f"{what}: assigning String instances to the slot changed the next object", ctx)
                 # a String instance that is LARGER than the slot (its text would fit, its room does not) is refused by assignment
                 if not isinstance(obj, xo.String):
                     big = xo.String(how + 40, _buffer=xo.ContextCpu().new_buffer(128))
